@@ -97,6 +97,8 @@ func Targets() []Target {
 		// code with loops: Evaluate methods
 		"UnionSDF2.EvaluateSlow", "UnionSDF2.Evaluate", "ArraySDF2.Evaluate", "RotateUnionSDF2.Evaluate",
 		"UnionSDF3.Evaluate", "ArraySDF3.Evaluate", "RotateUnionSDF3.Evaluate",
+		// mesh2.go: the per-segment functions of the polygon SDF
+		"newLineInfo", "lineInfo.minDistance2", "lineInfo.winding",
 		// mutators: the new values of the fields they assign
 		"IntersectionSDF2.SetMax", "DifferenceSDF2.SetMax", "ArraySDF2.SetMin", "RotateUnionSDF2.SetMin", "UnionSDF2.SetMin",
 		"ExtrudeSDF3.SetExtrude", "UnionSDF3.SetMin", "DifferenceSDF3.SetMax", "IntersectionSDF3.SetMax", "ArraySDF3.SetMin", "RotateUnionSDF3.SetMin",
@@ -135,6 +137,7 @@ const (
 	kV2i    // v2i.Vec{X, Y int}: (Z * Z)
 	kV3i    // v3i.Vec{X, Y, Z int}: (Z * Z * Z)
 	kIval   // sdf.Interval = [2]float64: (T * T)
+	kLine2  // sdf.Line2 = [2]v2.Vec: (V2 * V2)
 	kList   // args[0] = element (an SDF element is the pair (Evaluate, BoundingBox))
 	kFn     // args -> ret
 	kTuple  // several results of a function: args
@@ -149,20 +152,21 @@ type typ struct {
 }
 
 var (
-	tT    = typ{k: kT}
-	tV2   = typ{k: kV2}
-	tV3   = typ{k: kV3}
-	tM22  = typ{k: kM22}
-	tM33  = typ{k: kM33}
-	tM44  = typ{k: kM44}
-	tBox2 = typ{k: kBox2}
-	tBox3 = typ{k: kBox3}
-	tBool = typ{k: kBool}
-	tP2   = typ{k: kP2}
-	tInt  = typ{k: kInt}
-	tV2i  = typ{k: kV2i}
-	tV3i  = typ{k: kV3i}
-	tIval = typ{k: kIval}
+	tT     = typ{k: kT}
+	tV2    = typ{k: kV2}
+	tV3    = typ{k: kV3}
+	tM22   = typ{k: kM22}
+	tM33   = typ{k: kM33}
+	tM44   = typ{k: kM44}
+	tBox2  = typ{k: kBox2}
+	tBox3  = typ{k: kBox3}
+	tBool  = typ{k: kBool}
+	tP2    = typ{k: kP2}
+	tInt   = typ{k: kInt}
+	tV2i   = typ{k: kV2i}
+	tV3i   = typ{k: kV3i}
+	tIval  = typ{k: kIval}
+	tLine2 = typ{k: kLine2}
 )
 
 func fnType(ret typ, args ...typ) typ { return typ{k: kFn, args: args, ret: &ret} }
@@ -204,6 +208,8 @@ func (t typ) coq() string {
 		return "(Z * Z * Z)%type"
 	case kIval:
 		return "(T O * T O)%type"
+	case kLine2:
+		return "(V2 O * V2 O)%type"
 	case kList:
 		return "list (" + t.args[0].elemCoq() + ")"
 	case kTuple:
@@ -257,6 +263,8 @@ func (t typ) zero() (string, bool) {
 		return "(mkBox3 (mkV3 (o0 O) (o0 O) (o0 O)) (mkV3 (o0 O) (o0 O) (o0 O)))", true
 	case kIval, kP2:
 		return "((o0 O), (o0 O))", true
+	case kLine2:
+		return "((mkV2 (o0 O) (o0 O)), (mkV2 (o0 O) (o0 O)))", true
 	case kV2i:
 		return "(0%Z, 0%Z)", true
 	case kV3i:
@@ -303,6 +311,8 @@ func (t typ) goName() string {
 		return "v3i.Vec"
 	case kIval:
 		return "Interval"
+	case kLine2:
+		return "Line2"
 	case kList:
 		return "[]" + t.args[0].goName()
 	case kTuple:
@@ -480,7 +490,7 @@ func init() {
 		o0 o1 two half cst sq ofZ negb andb orb bool list nth option Some None fst snd pair
 		oadd osub omul odiv oneg oabs osqrt oltb oleb oeqb omin omax otoZ ofloor oceil ofmod osin ocos otan oatan oatan2 oacos
 		opi omaxf true false
-		as at cofix else end exists exists2 fix for forall fun if IF in let match mod Prop return Set then Type using where with
+		as at by cofix else end exists exists2 fix for forall fun if IF in let match mod Prop SProp return Set then Type using where with
 		Definition Lemma Theorem Proof Qed Section End Context Import Export Require From`) {
 		reserved[w] = true
 	}
@@ -642,16 +652,17 @@ func (e env) clone() env {
 }
 
 type fctx struct {
-	g          *gen
-	p          *pkg
-	file       *srcFile
-	key        string
-	recv       string // receiver identifier of a struct method ("" otherwise)
-	recvStruct string
-	used       map[string]typ // receiver fields used
-	results    []typ          // result types: function, then enclosing closures
-	named      []string       // named results of the function
-	mutator    string         // the receiver name of a mutator method
+	g            *gen
+	p            *pkg
+	file         *srcFile
+	key          string
+	recv         string // receiver identifier of a struct method ("" otherwise)
+	recvStruct   string
+	used         map[string]typ // receiver fields used
+	results      []typ          // result types: function, then enclosing closures
+	named        []string       // named results of the function
+	mutator      string         // the receiver name of a mutator method
+	structResult string         // the function returns (a pointer to) this struct: a tuple of its fields
 }
 
 type val struct {
@@ -696,6 +707,12 @@ func (g *gen) goType(p *pkg, sf *srcFile, e ast.Expr) (typ, error) {
 		}
 	case *ast.FuncType:
 		return g.funcType(p, sf, x)
+	case *ast.StarExpr:
+		// *Line2: the segment it points to (it is only read)
+		t, err := g.goType(p, sf, x.X)
+		if err == nil && t.k == kLine2 {
+			return t, nil
+		}
 	case *ast.ArrayType:
 		if x.Len == nil {
 			el, err := g.goType(p, sf, x.Elt)
@@ -772,6 +789,20 @@ func (g *gen) namedType(p *pkg, name string) (typ, error) {
 			return typ{}, fmt.Errorf("sdf.Interval is not [2]float64 any more")
 		}
 		return tIval, nil
+	case p.name == "sdf" && name == "Line2":
+		at, ok := p.atypes[name]
+		if ok {
+			ln, isLit := at.Len.(*ast.BasicLit)
+			ok = isLit && ln.Value == "2"
+			if ok {
+				el, err := g.goType(p, p.fileOf[name], at.Elt)
+				ok = err == nil && el.k == kV2
+			}
+		}
+		if !ok {
+			return typ{}, fmt.Errorf("sdf.Line2 is not [2]v2.Vec any more")
+		}
+		return tLine2, nil
 	case p.name == "sdf" && name == "M22":
 		return tM22, nil
 	case p.name == "sdf" && name == "M33":
@@ -1476,7 +1507,7 @@ func (f *fctx) composite(x *ast.CompositeLit, implied *typ, e env) (val, error) 
 		n  int
 		el typ
 	}{kV2: {"mkV2", 2, tT}, kV3: {"mkV3", 3, tT}, kBox2: {"mkBox2", 2, tV2}, kBox3: {"mkBox3", 2, tV3}, kP2: {"pair", 2, tT},
-		kV2i: {"", 2, tInt}, kV3i: {"", 3, tInt}, kIval: {"", 2, tT}}[t.k]
+		kV2i: {"", 2, tInt}, kV3i: {"", 3, tInt}, kIval: {"", 2, tT}, kLine2: {"", 2, tV2}}[t.k]
 	if !ok {
 		return val{}, f.errf(x, "composite literal of %s", t.goName())
 	}
@@ -1607,8 +1638,12 @@ func (f *fctx) expr(e0 ast.Expr, e env) (val, error) {
 			}
 			return elemVal(fmt.Sprintf("(nth (Z.to_nat %s) %s %s)", iv.s, a.s, z), a.t.args[0]), nil
 		}
-		if a.t.k == kIval && ok && lit.Kind == token.INT && (lit.Value == "0" || lit.Value == "1") {
-			return val{s: "(" + map[string]string{"0": "fst", "1": "snd"}[lit.Value] + " " + a.s + ")", t: tT}, nil
+		if (a.t.k == kIval || a.t.k == kLine2) && ok && lit.Kind == token.INT && (lit.Value == "0" || lit.Value == "1") {
+			rt := tT
+			if a.t.k == kLine2 {
+				rt = tV2
+			}
+			return val{s: "(" + map[string]string{"0": "fst", "1": "snd"}[lit.Value] + " " + a.s + ")", t: rt}, nil
 		}
 		size := map[kind]int{kM22: 4, kM33: 9, kM44: 16}[a.t.k]
 		if !ok || lit.Kind != token.INT || size == 0 {
@@ -2248,6 +2283,25 @@ func (f *fctx) assignedOuter(list []ast.Stmt, declared map[string]bool, e env, o
 	return nil
 }
 
+// the struct type T of this package when the function has the single result T or *T
+func (f *fctx) structResultName(fd *ast.FuncDecl) (string, bool) {
+	if fd.Type.Results == nil || len(fd.Type.Results.List) != 1 || len(fd.Type.Results.List[0].Names) != 0 {
+		return "", false
+	}
+	t := fd.Type.Results.List[0].Type
+	if st, ok := t.(*ast.StarExpr); ok {
+		t = st.X
+	}
+	id, ok := t.(*ast.Ident)
+	if !ok || f.p.structs[id.Name] == nil {
+		return "", false
+	}
+	if _, err := f.g.namedType(f.p, id.Name); err == nil {
+		return "", false // Box2, Box3, ...: types with a model of their own
+	}
+	return id.Name, true
+}
+
 // the binding of an assignable variable: a local "x" or a field "s.f" of a struct under construction
 // (a field that has not been assigned yet holds its zero value)
 func (f *fctx) lookupVar(n ast.Node, e env, key string) (*binding, error) {
@@ -2883,6 +2937,61 @@ func (f *fctx) stmts(list []ast.Stmt, e env, tl *tail, ind string) (string, erro
 		if want.k == kObjOpt {
 			return f.ctorReturn(s, e, want, ind)
 		}
+		if want.k == kTuple && f.structResult != "" && len(f.results) == 1 {
+			// return &T{f: e, ..}
+			if len(s.Results) != 1 {
+				return "", f.errf(s, "return of %d values", len(s.Results))
+			}
+			r := s.Results[0]
+			if u, ok := r.(*ast.UnaryExpr); ok && u.Op == token.AND {
+				r = u.X
+			}
+			cl, ok := r.(*ast.CompositeLit)
+			if tid, isId := cl.Type.(*ast.Ident); !ok || !isId || tid.Name != f.structResult {
+				return "", f.errf(s, "the result is not a %s{..} literal", f.structResult)
+			}
+			vals := map[string]ast.Expr{}
+			for _, el := range cl.Elts {
+				kv, ok := el.(*ast.KeyValueExpr)
+				if !ok {
+					return "", f.errf(s, "positional %s literal", f.structResult)
+				}
+				vals[kv.Key.(*ast.Ident).Name] = kv.Value
+			}
+			var parts []string
+			i := 0
+			for _, fl := range f.p.structs[f.structResult].Fields.List {
+				for _, nm := range fl.Names {
+					ft := want.args[i]
+					i++
+					ex, ok := vals[nm.Name]
+					if !ok {
+						z, okz := ft.zero()
+						if !okz {
+							return "", f.errf(s, "field %s of the result has no zero value", nm.Name)
+						}
+						parts = append(parts, z)
+						continue
+					}
+					v, err := f.expr(ex, e)
+					if err != nil {
+						return "", err
+					}
+					if ft.k == kInt {
+						v, _ = asInt(v)
+					}
+					if !v.t.eq(ft) {
+						return "", f.errf(s, "field %s: %s, expected %s", nm.Name, v.t.goName(), ft.goName())
+					}
+					parts = append(parts, v.s)
+					delete(vals, nm.Name)
+				}
+			}
+			if len(vals) != 0 {
+				return "", f.errf(s, "%s literal with an unknown field", f.structResult)
+			}
+			return ind + tuple(parts), nil
+		}
 		if want.k == kTuple {
 			var parts []string
 			if len(s.Results) == 0 && len(f.results) == 1 && len(f.named) == len(want.args) {
@@ -3010,7 +3119,36 @@ func (f *fctx) stmts(list []ast.Stmt, e env, tl *tail, ind string) (string, erro
 			return out + ind + "else\n" + indentMore(b), nil
 		default:
 			if containsReturn(thenL) || containsReturn(elseL) {
-				return "", f.errf(s, "if statement that returns on some paths and falls through on others")
+				// returns on some paths, falls through on others: the rest of the block follows each branch
+				if tl != nil {
+					return "", f.errf(s, "return inside a block that can also fall through")
+				}
+				for _, l := range [][]ast.Stmt{thenL, elseL} {
+					for _, st := range l {
+						if as, ok := st.(*ast.AssignStmt); ok && as.Tok == token.DEFINE {
+							for _, lhs := range as.Lhs {
+								if id, ok := lhs.(*ast.Ident); ok {
+									if _, shadow := e[id.Name]; shadow {
+										return "", f.errf(s, "a branch that can fall through re-declares %s", id.Name)
+									}
+								}
+							}
+						}
+					}
+				}
+				a, err := f.stmts(append(append([]ast.Stmt{}, thenL...), rest...), e.clone(), nil, ind+"  ")
+				if err != nil {
+					return "", err
+				}
+				b, err := f.stmts(append(append([]ast.Stmt{}, elseL...), rest...), e.clone(), nil, ind)
+				if err != nil {
+					return "", err
+				}
+				out := ind + "if " + c.s + " then\n" + a + "\n"
+				if strings.HasPrefix(strings.TrimLeft(b, " "), "if ") {
+					return out + ind + "else " + strings.TrimLeft(b, " "), nil
+				}
+				return out + ind + "else\n" + indentMore(b), nil
 			}
 			var vars []string
 			if err := f.assignedOuter(thenL, nil, e, &vars); err != nil {
@@ -3219,7 +3357,23 @@ func (g *gen) translate(p *pkg, key string) (*Def, error) {
 			return nil, f.errf(fd, "method without a result")
 		}
 		var rts []typ
+		if sn, ok := f.structResultName(fd); ok {
+			// func .. *T { return &T{f: e, ..} }: the tuple of the fields of T, in the order T declares them
+			for _, fl := range p.structs[sn].Fields.List {
+				t, err := g.goType(p, p.fileOf[sn], fl.Type)
+				if err != nil || t.iface || t.k == kFn {
+					return nil, f.errf(fd, "result struct %s: field of an unsupported type", sn)
+				}
+				for range fl.Names {
+					rts = append(rts, t)
+				}
+			}
+			f.structResult = sn
+		}
 		for _, r := range fd.Type.Results.List {
+			if f.structResult != "" {
+				break
+			}
 			t, err := f.goType(r.Type)
 			if err != nil {
 				return nil, f.errf(fd, "%v", err)
@@ -3329,7 +3483,7 @@ func Translate(repo string) (*Result, error) {
 		{"v2i", modPath + "vec/v2i", []string{"vec/v2i/v2i.go"}},
 		{"v3i", modPath + "vec/v3i", []string{"vec/v3i/v3i.go"}},
 		{"conv", modPath + "vec/conv", []string{"vec/conv/conv.go"}},
-		{"sdf", modPath + "sdf", []string{"sdf/utils.go", "sdf/sdf2.go", "sdf/sdf3.go", "sdf/box2.go", "sdf/box3.go", "sdf/matrix.go", "sdf/line.go"}},
+		{"sdf", modPath + "sdf", []string{"sdf/utils.go", "sdf/sdf2.go", "sdf/sdf3.go", "sdf/box2.go", "sdf/box3.go", "sdf/matrix.go", "sdf/line.go", "sdf/mesh2.go"}},
 	} {
 		p, err := loadPkg(g.fset, repo, s.name, s.path, s.files...)
 		if err != nil {
